@@ -16,10 +16,12 @@
       specification's position after its move; `caps_exact_along_chains` — well-formedness survives
       every chain of capture-only generations, so both hold at every position the quiescence search
       can reach (no en passant capture for a double step made more than one ply earlier: a stale
-      target cannot exist, and a move the rules forbid is never carried).
+      target cannot exist, and a move the rules forbid is never carried);
+      `caps_no_move_twice` — no capturing move appears twice in the list.
 -/
 import Walleye.Proofs.Caps
 import Walleye.Proofs.CapsExact
+import Walleye.Proofs.NoDup
 namespace Walleye
 
 theorem caps_only_captures (h : Hasher) (p : Pos) :
@@ -89,5 +91,10 @@ theorem caps_exact_along_chains (h : Hasher) (p q : Pos) (wf : WFp p) (hinv : In
     ∀ s ∈ generateMoves h q .caps, abs s = Spec.apply (abs q) (moveOf s) :=
   ⟨caps_exact h q (cap_chain_wf h p q wf hinv hc).1 m,
    caps_successor_is_spec_apply h q (cap_chain_wf h p q wf hinv hc).1⟩
+
+/-- no capturing move appears twice, at every position of every capture chain -/
+theorem caps_no_move_twice (h : Hasher) (p q : Pos) (wf : WFp p) (hinv : Inv h p) (hc : CapChain h p q) :
+    ((generateMoves h q .caps).map moveOf).Nodup :=
+  generateMoves_nodup h q (cap_chain_wf h p q wf hinv hc).1 .caps
 
 end Walleye
